@@ -17,6 +17,10 @@ CHECKS = {
          "generated-input search with lower-bound witnesses for every reported violation; three open known findings on the contact position"),
  "C09": ("property-based testing (Hypothesis): C01 scenes vs original GJK (points, consistency, optimality) and Nesterov variants (value); iteration helpers on fresh objects",
          "generated-input search against construction witnesses / certified reference GJK; two open known findings for use_nesterov_acceleration=True"),
+ "C10": ("property-based testing (Hypothesis): all 34 functions x placement families; closed-form point-to-primitive residuals and consistency",
+         "generated-input search over all exported functions and degenerate placement families with closed-form membership oracles; two open known findings (disk_to_disk, circle functions)"),
+ "C11": ("property-based testing (Hypothesis): same cases; certified reference GJK interval (convex pairs), closed forms (line/plane pairs), exhaustive 1-D search (circle); epsilon bands measured and excluded",
+         "generated-input search; a violation always carries a closer pair of points; three open known findings (disk_to_disk, line_segment_to_circle, line_to_circle)"),
  "C14": ("model-based testing: Hypothesis-generated update_pose/query histories vs a freshly constructed collider at the last pose",
          "generated operation sequences (poses as fresh arrays or stack items) against a fresh-object oracle after every query; held on everything explored"),
  "C05": ("model-based testing: Hypothesis-generated insertion/query histories vs list model with brute-force overlap; jit and boundscheck modes",
